@@ -14,7 +14,8 @@ entries freely; a dangling reference is a PlanError):
   blocks [{'name': 'b0', 'op': 'not'|'id'|'and'|'xor', 'ins': [...]}]     in creation order;
          an input is a block name, a literal true/false (edzed wraps it in a Const) or
          {'const': bool} (an explicit edzed.Const object); a block may have constants only
-  ops    [{'puts': [[src, bool], ...]}]           one burst of external 'put' events each
+  ops    [{'puts': [[src, bool], ...]}]           one burst of external 'put' events each, all
+                                                  sent without yielding (1-16 puts)
 
 Documented semantics used by the model:
   Not = logical negation of its single input, And = all inputs true, Xor = odd number of true
@@ -22,6 +23,12 @@ Documented semantics used by the model:
   Input stores the value that was 'put'; "the simulator computes block outputs when any of the
   inputs changes" (simulation.rst) -> a block is evaluated at most once per change of one of
   its input blocks (plus once at start, when every block has to get its first output).
+  External events are delivered synchronously and the simulator is an asyncio task: k changes
+  made to a source in one instant (k puts without yielding to the event loop) are over before
+  the simulator runs, it sees the final value only. They are therefore ONE change of that
+  source for the settle round that follows (the queue may name the block k times, the set of
+  blocks to evaluate holds each block once) - also when the burst ends in the initial value.
+  The path bound below counts a changed source once per burst, whatever the number of puts.
 """
 
 from __future__ import annotations
@@ -207,7 +214,7 @@ class Net:
                 elif i in self.evmap:
                     total += cnt[self.bidx[self.evmap[i]['frm']]]
                 else:
-                    total += changes.get(i, 0)
+                    total += 1 if changes.get(i, 0) else 0     # one settle round per burst
             cnt[k] = total
         return sum(cnt), cnt
 
@@ -287,7 +294,28 @@ def gen_net(rng, tier, index):
                 ins.append(rng.choice([s['name'] for s in srcs]))
             rng.shuffle(ins)
             blocks.append({'name': names[k], 'op': rng.choice(['and', 'xor', 'xor']), 'ins': ins})
-    for k in range(nblk if not fan_shape else 0):
+    ladder = kind == 'acyclic' and not fan_shape and nblk >= 5 and rng.random() < 0.3
+    if ladder:
+        # reconvergent fan-in with unequal path lengths: a chain src -> c1 -> ... -> cm and one
+        # or two blocks z tapping every other chain block (taps are not directly connected with
+        # each other) and the source. Few paths in total (<= 2 per block on average), but z has
+        # 3-5 of them and may be evaluated once per tap when the set order is unlucky.
+        evin, ev_avail = [], {}
+        nz = 2 if nblk >= 7 and rng.random() < 0.4 else 1
+        m = nblk - nz
+        src = rng.choice(srcs)['name']
+        prev = src
+        for k in range(m):
+            blocks.append({'name': names[k], 'op': rng.choice(['not', 'id']), 'ins': [prev]})
+            prev = names[k]
+        for z in range(nz):
+            ins = [names[k] for k in range(1 + rng.randrange(2), m, 2)]
+            if rng.random() < 0.7:
+                ins.append(src)
+            rng.shuffle(ins)
+            blocks.append({'name': names[m + z], 'op': rng.choice(['xor', 'xor', 'and']),
+                           'ins': ins})
+    for k in range(0 if fan_shape or ladder else nblk):
         op = rng.choice(['not', 'id', 'and', 'and', 'xor', 'xor'] if dense
                         else ['not', 'not', 'id', 'and', 'xor'])
         fan = 1 if op in ('not', 'id') else rng.choice([1, 2, 2, 3] if not dense else [2, 2, 3, 3])
@@ -356,10 +384,23 @@ def gen_net(rng, tier, index):
     # a history of bursts
     cur = {s['name']: s['init'] for s in srcs}
     ops = []
+    # long bursts matter most where the instability limit (a multiple of the number of
+    # blocks) is low: small acyclic networks
+    p_long = 0.4 if kind == 'acyclic' and nblk <= 3 else 0.2 if kind == 'acyclic' else 0.08
     for _ in range(rng.choice([1, 2, 2, 3, 3, 4, 6, 12])):
         r = rng.random()
         puts = []
-        if r < 0.62:
+        if rng.random() < p_long:
+            # 4-16 puts in one instant toggling one or a few sources; an even number of
+            # toggles of a source ends in its initial value
+            some = rng.sample([x['name'] for x in srcs], rng.choice([1, 1, 1, 2, nsrc]) if nsrc > 1
+                              else 1)
+            val = dict(cur)
+            for _n in range(rng.randint(4, 16)):
+                s = rng.choice(some)
+                val[s] = not val[s]
+                puts.append([s, val[s]])
+        elif r < 0.62:
             s = rng.choice(srcs)['name']
             puts.append([s, not cur[s]])
         elif r < 0.82:
